@@ -143,6 +143,7 @@ LedgerEvents(s) ==
 WVariants == {W1, [W1 EXCEPT !.from = "up:u2"], [W1 EXCEPT !.amt = 2], [W1 EXCEPT !.to = "u2"], [W1 EXCEPT !.from = "u1", !.to = "u2"], [W1 EXCEPT !.seq = 2], [W1 EXCEPT !.denom = "d2"]}
 BadPos == {c \in {Claim("x", b, o, w, 0, t, pos, "h1", "none") : b \in {1, 2}, o \in 1..3, w \in {W1, W2, W3}, t \in {"T1", "T2", "T3"}, pos \in 1..3} : c.pos > Len(c.tree.leaves)}
           \cup {c \in {Claim("u1", 1, o, w, v, t, pos, h, m) : o \in 1..2, w \in WVariants, v \in {0, 1}, t \in {"T1"}, pos \in {2}, h \in {"h1", "h2"}, m \in ProofMuts \cup {"len31"}} : TRUE}
+InTree(S) == {c \in S : c.pos <= Len(c.tree.leaves)}     \* the harness builds proofs for existing positions only
 ClaimEvents(s) ==
   LET roots == {Root(0, "T1", "h1"), Root(0, "T2", "h1"), Root(0, "T3", "h1")}
       muts  == IF Thorough THEN ProofMuts \cup {"len31"} ELSE {"none", "flip", "drop", "ext"}
@@ -159,8 +160,14 @@ ClaimEvents(s) ==
   \cup ({Claim("x", b, o, w, 0, t, pos, "h1", "none") :
           b \in {1, 2}, o \in 1..3, w \in {W1, W2, W3}, t \in {"T1", "T2", "T3"}, pos \in 1..3} \ BadPos)
   \cup (IF Thorough
-        THEN ({Claim("u1", 1, o, w, v, t, pos, h, m) :
-                o \in 1..2, w \in WVariants, v \in {0, 1}, t \in {"T1", "T2"}, pos \in 1..2, h \in {"h1", "h2"}, m \in muts} \ BadPos)
+        THEN \* two dimensions at a time around the valid claim (the full product - 1344 claims per state, 9*10^6 transitions - was measured and is
+             \* beyond what E2 replays in the time allowed; FailCap = 2 already emits every pair of failing guards)
+             InTree({Claim("u1", 1, o, w, 0, "T2", 1, "h1", m) : o \in 1..3, w \in WVariants, m \in muts}
+              \cup {Claim("u1", 1, o, w, v, "T2", 1, h, "none") : o \in 1..3, w \in WVariants, v \in {0, 1}, h \in {"h1", "h2"}}
+              \cup {Claim("u1", 1, o, W1, v, "T2", 1, h, m) : o \in 1..3, v \in {0, 1}, h \in {"h1", "h2"}, m \in muts}
+              \cup {Claim("u1", 1, o, w, 0, t, pos, "h1", "none") : o \in 1..3, w \in WVariants, t \in {"T1", "T2", "T3"}, pos \in 1..3}
+              \cup {Claim("u1", 1, o, W1, 0, t, pos, "h1", m) : o \in 1..3, t \in {"T1", "T2", "T3"}, pos \in 1..3, m \in muts}
+              \cup {[always |-> TRUE] @@ Claim("u1", 1, o, [W1 EXCEPT !.amt = 5], 0, "T2", 1, "h1", "none") : o \in 1..3})
         ELSE \* one dimension at a time around the valid claim (W1, version 0, tree T2, position 1, block hash h1)
              {Claim("u1", 1, o, w, 0, "T2", 1, "h1", "none") : o \in 1..3, w \in WVariants}
              \cup {[always |-> TRUE] @@ Claim("u1", 1, o, [W1 EXCEPT !.amt = 5], 0, "T2", 1, "h1", "none") : o \in 1..3}   \* W1's amount + 2^64
